@@ -277,6 +277,9 @@ def rules(ctx):
         okf = src(v.left) == valp and isinstance(v.right, ast.Call) and is_name(v.right.func, 'max') and \
             'abs(' in src(v.right) and ('%s.values()' % src_name in src(v.right) or '%s.items()' % src_name in src(v.right)
                                          or src_name in names_in(v.right))
+        # every coefficient takes part in the maximum: the generator is not filtered
+        if okf and any(gen.ifs for ge in ast.walk(v.right) if isinstance(ge, (ast.GeneratorExp, ast.ListComp, ast.SetComp)) for gen in ge.generators):
+            okf = False
         inloop = any(x is s_ for l in loops for x in ast.walk(l))
         ctx.inst('R18.5', fn, s_, okf and not inloop,
                  "factor = value / max(abs(coefficient)) computed once outside the loop" if okf and not inloop else
